@@ -1,3 +1,4 @@
+pub mod addr;
 pub mod merkle;
 pub mod ser;
 pub mod sha;
